@@ -52,6 +52,14 @@ type Scenario struct {
 	StopAt    int        `json:"stopAt"`  // move index at which the stop request is issued
 	Moves     []string   `json:"moves"`   // model-driven schedule (optional): thread names to release
 	Weights   [5]float64 `json:"weights"` // bias per thread class L W T S P
+	Init      []string   `json:"init,omitempty"`   // retry of a recorded run: recorded status per step
+	SnapAt    int        `json:"snapAt,omitempty"` // first run of a retry pair: take the "killed here" status snapshot at this move
+}
+
+// RunInfo is what a retry scenario needs to know about the run it retries.
+type RunInfo struct {
+	Final []string // statuses when Schedule returned
+	Snap  []string // statuses at move SnapAt (as a SIGKILL at that instant would have left them on disk), or nil
 }
 
 const timeoutDur = 400 * time.Millisecond
@@ -115,6 +123,8 @@ type schedRun struct {
 	start                               time.Time
 	sched                               *scheduler.Scheduler
 	graph                               *scheduler.ExecutionGraph
+	snap                                []string
+	stuck                               bool
 	free                                bool // free-running mode: gates only log
 	ctxUpper                            time.Time // the run context (deadline) was created before this instant
 	dirty                               bool      // something other than the loop moved since the loop was last at loop.top
@@ -615,6 +625,11 @@ var quietLogger = logger.NewLogger(logger.NewLoggerArgs{Quiet: true})
 // RunSched executes one scenario on the real scheduler and appends its trace to tr.
 // The returned error is an infrastructure error (hang of the rig), never a verdict.
 func RunSched(sc Scenario, tr *Tracer, logDir string, free bool) error {
+	_, err := RunSchedInfo(sc, tr, logDir, free)
+	return err
+}
+
+func RunSchedInfo(sc Scenario, tr *Tracer, logDir string, free bool) (*RunInfo, error) {
 	log.SetOutput(io.Discard)
 	r := &schedRun{sc: sc, tr: tr, rng: rand.New(rand.NewSource(sc.Seed)), segs: map[string]*segState{},
 		attempts: map[string]int{}, sigd: map[string]string{}, aliveP: map[string]bool{}, free: free}
@@ -630,9 +645,26 @@ func RunSched(sc Scenario, tr *Tracer, logDir string, free bool) error {
 	}()
 
 	runTag := fmt.Sprintf("%d", sc.ID)
-	g, err := scheduler.NewExecutionGraph(quietLogger, sc.steps(runTag)...)
+	var g *scheduler.ExecutionGraph
+	var err error
+	var startSt []string
+	if len(sc.Init) > 0 {
+		steps := sc.steps(runTag)
+		nodes := make([]*scheduler.Node, len(steps))
+		for i := range steps {
+			nodes[i] = scheduler.NewNode(steps[i], scheduler.NodeState{Status: statusByName(sc.Init[i])})
+		}
+		g, err = scheduler.NewExecutionGraphForRetry(quietLogger, nodes...)
+		if err == nil {
+			for _, n := range g.Nodes() {
+				startSt = append(startSt, n.State().Status.String())
+			}
+		}
+	} else {
+		g, err = scheduler.NewExecutionGraph(quietLogger, sc.steps(runTag)...)
+	}
 	if err != nil {
-		return fmt.Errorf("graph: %w", err)
+		return nil, fmt.Errorf("graph: %w", err)
 	}
 	dir := filepath.Join(logDir, runTag)
 	cfg := &scheduler.Config{LogDir: dir, Logger: quietLogger, MaxActiveRuns: sc.MaxActive, Dry: sc.Dry,
@@ -644,7 +676,12 @@ func RunSched(sc Scenario, tr *Tracer, logDir string, free bool) error {
 	s := scheduler.New(cfg)
 	s.VerifSetPause(time.Microsecond)
 	r.sched, r.graph = s, g
-	r.emit(sc.resetEvent())
+	re := sc.resetEvent()
+	if len(sc.Init) > 0 {
+		re["init"] = sc.Init
+		re["start"] = startSt
+	}
+	r.emit(re)
 
 	var done chan *scheduler.Node
 	var doneWG sync.WaitGroup
@@ -696,7 +733,7 @@ func RunSched(sc Scenario, tr *Tracer, logDir string, free bool) error {
 		for _, p := range ps {
 			p.ch <- "fail"
 		}
-		return derr
+		return nil, derr
 	}
 	// final observation
 	final := make([]Ev, 0, sc.N)
@@ -716,7 +753,11 @@ func RunSched(sc Scenario, tr *Tracer, logDir string, free bool) error {
 	r.emit(Ev{"ev": "Returned", "status": s.Status(g).String(), "err": r.retErr != nil, "final": final,
 		"hfinal": hfinal})
 	os.RemoveAll(dir)
-	return nil
+	info := &RunInfo{Snap: r.snap}
+	for _, n := range g.Nodes() {
+		info.Final = append(info.Final, n.State().Status.String())
+	}
+	return info, nil
 }
 
 func hName(t string) string {
@@ -920,7 +961,23 @@ func (r *schedRun) driveRandom() error {
 				r.passDeadline()
 				continue
 			}
+			if len(r.sc.Init) > 0 && !r.stuck {
+				// a retry that can make no progress any more: record it, then end the run by cancelling it
+				r.stuck = true
+				r.emit(Ev{"ev": "Stuck"})
+				r.mu.Lock()
+				r.lStale = false
+				r.dirty = true
+				r.mu.Unlock()
+				r.sched.Cancel(r.graph)
+				continue
+			}
 			return fmt.Errorf("deadlock: nothing enabled, returned=%v", ret)
+		}
+		if r.sc.SnapAt > 0 && move == r.sc.SnapAt && r.snap == nil {
+			for _, n := range r.graph.Nodes() {
+				r.snap = append(r.snap, n.State().Status.String())
+			}
 		}
 		if r.sc.Timeout && !r.ctxFired && r.rng.Intn(25) == 0 {
 			// let the deadline pass while everything is parked
